@@ -280,6 +280,15 @@ def run(tier, seed, t0):
                                  'what': 'bytes written as the recursive item %s (value %s) were accepted when read as %s: %s [%s]' % (name, v[:200], other, a[:200], cfg),
                                  'written': name, 'read': other, 'bytes': h, 'result': a})
         stats['recursive_item_pairs'] = nrec
+        # a container with an exhausted RangeInclusive in a Sequence (not expressible in the container syntax of the model)
+        ex = run_cases(exe, [case_line('ex', 'sch-exhausted', '-', '-')]).get('ex') or ''
+        stats['evaluations'] += 1
+        if not ex.startswith('equal='):
+            disagreements.append({'what': 'sch-exhausted gave %r [%s]' % (ex, cfg)})
+        elif not ex.startswith('equal=true'):
+            failures.append({'class': 'exhausted-range-container', 'key': 'exhausted 0..=0',
+                             'what': 'a container whose Sequence has the length range 0..=0 in its exhausted state does not round-trip to an equal container: %s [%s]' % (ex, cfg),
+                             'replay_cmd': "printf 'x\\tsch-exhausted\\t-\\t-\\n' | " + exe})
         # (4) the container codec
         corpus = [(cid, c) for cid, c in gen.gen_structured(seed, tier) if SO.fits_codec(c)]
         if tier == 'quick':
